@@ -34,6 +34,12 @@ pub enum Rec {
     Scale(Vec<String>),
     Origx(Vec<String>),
     Mtrix(usize, Vec<String>, bool),
+    /// chain, (start, insert, end, insert), database, accession, id code, (start, insert, end, insert) in the database
+    Dbref(char, (isize, Option<char>, isize, Option<char>), String, String, String, (isize, Option<char>, isize, Option<char>)),
+    /// residue name, chain, number, insertion code, database residue, comment
+    Seqadv(String, char, isize, Option<char>, Option<(String, isize)>, String),
+    /// residue name, chain, number, insertion code, standard name, comment
+    Modres(String, char, isize, Option<char>, String, String),
 }
 
 /// place `v` anywhere inside a field of the given width
@@ -147,6 +153,34 @@ pub fn render(rng: &mut Rng, r: &Rec) -> Vec<String> {
                 )
             })
             .collect(),
+        // the annotation records have no free justification inside their short fields; the line may or may not be padded
+        Rec::Dbref(chain, p, db, acc, id, q) => vec![pad(
+            format!(
+                "DBREF  {:4} {} {:>4}{} {:>4}{} {:<6} {:<8} {:<12} {:>5}{} {:>5}{}",
+                "1ABC", chain, p.0, p.1.unwrap_or(' '), p.2, p.3.unwrap_or(' '), db, acc, id, q.0, q.1.unwrap_or(' '), q.2, q.3.unwrap_or(' ')
+            ),
+            rng,
+        )],
+        Rec::Seqadv(resname, chain, num, ins, dbres, comment) => vec![pad(
+            format!(
+                "SEQADV {:4} {:>3} {} {:>4}{} {:<4} {:<9} {:>3} {:>5} {}",
+                "1ABC",
+                resname,
+                chain,
+                num,
+                ins.unwrap_or(' '),
+                "UNP",
+                "P12345",
+                dbres.as_ref().map_or("", |d| d.0.as_str()),
+                dbres.as_ref().map_or(String::new(), |d| d.1.to_string()),
+                comment
+            ),
+            rng,
+        )],
+        Rec::Modres(resname, chain, num, ins, std, comment) => vec![pad(
+            format!("MODRES {:4} {:>3} {} {:>4}{} {:>3}  {}", "1ABC", resname, chain, num, ins.unwrap_or(' '), std, comment),
+            rng,
+        )],
         Rec::Mtrix(ser, m, given) => (0..3)
             .map(|i| {
                 format!(
@@ -178,6 +212,15 @@ pub fn rec_sx(r: &Rec) -> Sx {
         Rec::Scale(m) => call("scale", vec![l(m.iter().map(|x| s(x)).collect())]),
         Rec::Origx(m) => call("origx", vec![l(m.iter().map(|x| s(x)).collect())]),
         Rec::Mtrix(ser, m, g) => call("mtrix", vec![z(*ser as i128), l(m.iter().map(|x| s(x)).collect()), b(*g)]),
+        Rec::Dbref(chain, p, db, acc, id, q) => call(
+            "dbref",
+            vec![s(&chain.to_string()), z(p.0 as i128), oc(p.1), z(p.2 as i128), oc(p.3), s(db), s(acc), s(id), z(q.0 as i128), oc(q.1), z(q.2 as i128), oc(q.3)],
+        ),
+        Rec::Seqadv(resname, chain, num, ins, dbres, comment) => call(
+            "seqadv",
+            vec![s(resname), s(&chain.to_string()), z(*num as i128), oc(*ins), opt(dbres.as_ref(), |d| l(vec![s(&d.0), z(d.1 as i128)])), s(comment)],
+        ),
+        Rec::Modres(resname, chain, num, ins, std, comment) => call("modres", vec![s(resname), s(&chain.to_string()), z(*num as i128), oc(*ins), s(std), s(comment)]),
         Rec::Atom(a) => call(
             "atom",
             vec![
@@ -206,11 +249,14 @@ pub struct Cfg {
     pub metadata: bool,
     pub wraps: bool,
     pub blank_chains: bool,
+    /// DBREF / SEQADV / MODRES records about the chains and residues of the first model
+    pub annotations: bool,
 }
 
 /// a well-formed record list
 pub fn records(rng: &mut Rng, cfg: &Cfg) -> Vec<Rec> {
     let mut out = Vec::new();
+    let mut annot_at = 0;
     if cfg.metadata {
         if rng.chance(2, 3) {
             out.push(Rec::Header(format!("{}{}", rng.below(9) + 1, *rng.pick(&["ABC", "UBQ", "XYZ", "A1B"]))));
@@ -221,6 +267,7 @@ pub fn records(rng: &mut Rng, cfg: &Cfg) -> Vec<Rec> {
             let t: Vec<&str> = (0..rng.below(6)).map(|_| *rng.pick(&words)).collect();
             out.push(Rec::Remark(n, t.join(" ")));
         }
+        annot_at = out.len();
         if rng.chance(2, 3) {
             let cell = [
                 decimal(rng, 400, 3, 9, false),
@@ -347,6 +394,99 @@ pub fn records(rng: &mut Rng, cfg: &Cfg) -> Vec<Rec> {
             out.push(Rec::Endmdl);
         }
     }
+    if cfg.annotations {
+        let annots = annotations(rng, &out);
+        out.splice(annot_at..annot_at, annots);
+    }
+    out
+}
+
+/// DBREF / SEQADV / MODRES records about the first model of the records: one DBREF for some of the chains, differences
+/// after the references, modified residues among those that have one conformer (no alternate locations anywhere in the
+/// residue); names and insertion codes in the case of the coordinate records, in upper or in lower case
+fn annotations(rng: &mut Rng, recs: &[Rec]) -> Vec<Rec> {
+    let mut first: Vec<&AtomRec> = Vec::new();
+    for r in recs {
+        match r {
+            Rec::Atom(a) => first.push(a),
+            Rec::Endmdl => break,
+            _ => {}
+        }
+    }
+    // blank chain identifiers get their names from the TER count: not annotated; numbers past the wrap neither
+    if first.iter().any(|a| a.chain == ' ' || a.resnum > 9_990) {
+        return Vec::new();
+    }
+    let mut chains: Vec<char> = Vec::new();
+    for a in &first {
+        if !chains.contains(&a.chain) {
+            chains.push(a.chain);
+        }
+    }
+    let respell = |rng: &mut Rng, t: &str| match rng.below(3) {
+        0 => t.to_string(),
+        1 => t.to_ascii_uppercase(),
+        _ => t.to_ascii_lowercase(),
+    };
+    let mut dbrefs = Vec::new();
+    let mut seqadvs = Vec::new();
+    let mut modres = Vec::new();
+    for c in &chains {
+        let of_chain: Vec<&&AtomRec> = first.iter().filter(|a| a.chain == *c).collect();
+        if rng.chance(1, 2) {
+            let (f, l2) = (of_chain[0], of_chain[of_chain.len() - 1]);
+            let start = 1 + rng.below(500) as isize;
+            dbrefs.push(Rec::Dbref(
+                *c,
+                (f.resnum, f.ins, l2.resnum, l2.ins),
+                (*rng.pick(&["UNP", "GB", "PDB"])).to_string(),
+                (*rng.pick(&["P12345", "Q9XYZ1", "1ABC"])).to_string(),
+                (*rng.pick(&["ABCD_HUMAN", "LYSC_CHICK", "X"])).to_string(),
+                (start, None, start + rng.below(300) as isize, if rng.chance(1, 4) { Some('B') } else { None }),
+            ));
+            for _ in 0..rng.below(3) {
+                let a = of_chain[rng.below(of_chain.len())];
+                seqadvs.push(Rec::Seqadv(
+                    respell(rng, &a.resname),
+                    *c,
+                    a.resnum,
+                    a.ins,
+                    if rng.chance(1, 2) { Some(((*rng.pick(&["MET", "GLY", "ala"])).to_string(), rng.below(900) as isize)) } else { None },
+                    (*rng.pick(&["ENGINEERED MUTATION", "EXPRESSION TAG", "", "conflict"])).to_string(),
+                ));
+            }
+        }
+        // residues of the chain without any alternate location
+        let mut keys: Vec<(isize, Option<char>)> = Vec::new();
+        for a in &of_chain {
+            let k = (a.resnum, a.ins.map(|x| x.to_ascii_uppercase()));
+            if !keys.contains(&k) {
+                keys.push(k);
+            }
+        }
+        for k in keys {
+            let atoms: Vec<&&&AtomRec> = of_chain.iter().filter(|a| (a.resnum, a.ins.map(|x| x.to_ascii_uppercase())) == k).collect();
+            if atoms.iter().all(|a| a.alt.is_none()) && rng.chance(1, 2) {
+                let a = atoms[0];
+                let ins = a.ins.map(|x| match rng.below(3) {
+                    0 => x,
+                    1 => x.to_ascii_uppercase(),
+                    _ => x.to_ascii_lowercase(),
+                });
+                modres.push(Rec::Modres(
+                    respell(rng, &a.resname),
+                    *c,
+                    a.resnum,
+                    ins,
+                    (*rng.pick(&["MET", "SER", "ala"])).to_string(),
+                    (*rng.pick(&["SELENOMETHIONINE", "PHOSPHOSERINE", "", "a modified residue"])).to_string(),
+                ));
+            }
+        }
+    }
+    let mut out = dbrefs;
+    out.extend(seqadvs);
+    out.extend(modres);
     out
 }
 
